@@ -50,6 +50,9 @@ fn mk_c12() -> Vec<Box<dyn Monitor>> {
 fn mk_c13() -> Vec<Box<dyn Monitor>> {
     vec![Box::new(mon::c13::C13)]
 }
+fn mk_c11() -> Vec<Box<dyn Monitor>> {
+    vec![Box::new(mon::c11::C11::new()), Box::new(mon::c11::C11Reject)]
+}
 fn mk_c06() -> Vec<Box<dyn Monitor>> {
     vec![Box::new(mon::swaps::C06)]
 }
@@ -159,6 +162,17 @@ fn specs() -> Vec<CheckSpec> {
         thorough_secs: 600,
         assumptions: COMMON_ASSUMPTIONS,
         extra: Some(mon::c13::run_twins),
+    },
+    CheckSpec {
+        id: "C11",
+        profile: Profile::Rewards,
+        mk: mk_c11,
+        level: "exploration",
+        rule: "core histories plus a reward authority (initialise 1-3 rewards v1/v2, fund or under-fund the vaults, change emission rates incl. 0, 2^64*10^9, 2^100 and near-u128::MAX, authority hand-overs) and LPs collecting rewards, under a simulated clock with stall / jump (seconds to decades) / back-step faults; an exact rational shadow ledger accrues emissions x elapsed seconds over the positions in range between consecutive accrual points (old rate at a rate change); every credit c obeys c <= floor(e) and c >= floor(e) - (intervals*L/2^64 + 2) unless a documented carve-out applies; time-reading instructions with a clock earlier than the last update must fail; collects pay min(owed, vault); emission changes need a day of emissions in the vault (both directions); a case is one (instruction, reward index, initialised, earned, #intervals, carve-out) tuple",
+        quick_runs: 400,
+        thorough_secs: 600,
+        assumptions: COMMON_ASSUMPTIONS,
+        extra: None,
     },
     CheckSpec {
         id: "C05",
